@@ -980,6 +980,9 @@ class AnsiString:
             inplace - when True, do the conversion in-place and return self;
                       when False, do the conversion on a copy and return the copy
         '''
+        if isinstance(fillchar, AnsiStr):
+            # The fill character is a plain character: take the text of an AnsiStr, not its rendered value
+            fillchar = fillchar.base_str
         if len(fillchar) != 1:
             raise ValueError('fillchar must be exactly 1 character in length')
 
@@ -1015,6 +1018,9 @@ class AnsiString:
             inplace - when True, do the conversion in-place and return self;
                       when False, do the conversion on a copy and return the copy
         '''
+        if isinstance(fillchar, AnsiStr):
+            # The fill character is a plain character: take the text of an AnsiStr, not its rendered value
+            fillchar = fillchar.base_str
         if len(fillchar) != 1:
             raise ValueError('fillchar must be exactly 1 character in length')
 
@@ -1043,6 +1049,9 @@ class AnsiString:
             inplace - when True, do the conversion in-place and return self;
                       when False, do the conversion on a copy and return the copy
         '''
+        if isinstance(fillchar, AnsiStr):
+            # The fill character is a plain character: take the text of an AnsiStr, not its rendered value
+            fillchar = fillchar.base_str
         if len(fillchar) != 1:
             raise ValueError('fillchar must be exactly 1 character in length')
 
